@@ -32,6 +32,70 @@ def rule_R1(ctx):
     ctx.floor(rid, 4, 'explicit raise sites')
 
 
+def rule_DECL(ctx):
+    rid = 'D1'
+    ctx.rule(rid, 'declaration reaches the table as given: add_parameter never tests a declared '
+             'value (key, dist) for truthiness -- 0, 0.0, False and the empty string are legal '
+             'declarations -- and rebinds it only under a type test (isinstance / hasattr) or an '
+             '`is None` test of that very parameter')
+    f = ctx.program.func('Prior.add_parameter')
+    cfg = cfg_of(f)
+    params = [p for p in f.params if p != f.self_name]
+    par = {}
+    for n in ast.walk(f.node):
+        for c in ast.iter_child_nodes(n):
+            par[id(c)] = n
+
+    def truthiness_uses(name):
+        out = []
+        for n in walk_no_nested(f.node):
+            if not (isinstance(n, ast.Name) and n.id == name and isinstance(n.ctx, ast.Load)):
+                continue
+            p = par.get(id(n))
+            if isinstance(p, ast.BoolOp):
+                out.append(p)
+            elif isinstance(p, ast.UnaryOp) and isinstance(p.op, ast.Not):
+                out.append(p)
+            elif isinstance(p, (ast.If, ast.While, ast.IfExp)) and p.test is n:
+                out.append(p)
+            elif isinstance(p, ast.Call) and isinstance(p.func, ast.Name) and \
+                    p.func.id == 'bool':
+                out.append(p)
+        return out
+    for name in params:
+        uses = truthiness_uses(name)
+        ctx.ob(rid, 'Prior.add_parameter:no-truthiness-test(%s)' % name, not uses,
+               f.where(uses[0]) if uses else f.where(),
+               'the declared %r is never tested for truthiness' % name if not uses else
+               '`%s` tests the declared %r for truthiness: a legal falsy declaration (a '
+               'parameter fixed to 0 / 0.0 / False, an empty key) is treated as if it had not '
+               'been given' % (unparse(uses[0])[:50], name))
+        # rebinding only under a type / None test of the parameter
+        for n in cfg.nodes:
+            if n.kind != 'stmt' or not isinstance(n.ast, (ast.Assign, ast.AugAssign)):
+                continue
+            tg = n.ast.targets if isinstance(n.ast, ast.Assign) else [n.ast.target]
+            if not any(isinstance(t, ast.Name) and t.id == name for t in tg):
+                continue
+            ok = False
+            for atom, text, truth in cfg.facts(n.id):
+                for sub in ast.walk(atom):
+                    if isinstance(sub, ast.Call) and isinstance(sub.func, ast.Name) and \
+                            sub.func.id in ('isinstance', 'hasattr') and sub.args and \
+                            isinstance(sub.args[0], ast.Name) and sub.args[0].id == name:
+                        ok = True
+                    if isinstance(sub, ast.Compare) and isinstance(sub.left, ast.Name) and \
+                            sub.left.id == name and len(sub.ops) == 1 and \
+                            isinstance(sub.ops[0], (ast.Is, ast.IsNot)):
+                        ok = True
+            ctx.ob(rid, 'Prior.add_parameter:rebinding-under-type-test(%s)' % name, ok,
+                   f.where(n.ast),
+                   '`%s` happens under a type / None test of %r' % (unparse(n.ast)[:40], name)
+                   if ok else
+                   '`%s` replaces the declared %r without a type or `is None` test of it: what '
+                   'is stored is no longer what was declared' % (unparse(n.ast)[:50], name))
+
+
 def rule_PAIR(ctx):
     rid = 'L1p'
     ctx.rule(rid, 'keys/dists lockstep: every normal-exit path of add_parameter appends exactly '
@@ -205,6 +269,7 @@ def run(ctx):
     rule_R1(ctx)
     rule_PAIR(ctx)
     rule_LINK(ctx)
+    rule_DECL(ctx)
     rule_A1(ctx)
     ctx.floor('T1', 3, 'rejection exits')
     ctx.floor('T7', 1, 'appends to the key list')
